@@ -33,6 +33,11 @@ def concStoreLine (st : CsRun) (lineNo : Nat) (line : String) : Except String (C
       (if n "below_floor" == 0 then [] else
         [s!"PROPFAIL C12 later_calls_see_completed_poll {tag} (a value read after a completed Refresh was later replaced by an older one)",
          s!"PROPFAIL C11 poll_ok_fresh {tag} (a completed poll's value was later replaced by an older one)"]) ++
+      (if n "nil_but_stale" == 0 then [] else
+        [s!"PROPFAIL C11 poll_ok_fresh {tag} (a Refresh that joined a round whose starter gave up returned nil although secrets were not brought up to date)"]) ++
+      (if n "lock_leak" == 0 then [] else
+        [s!"PROPFAIL C12 never_waits_for_service {tag} (after a failed updater lookup the readers stopped making progress, or the failure was not reported)",
+         s!"PROPFAIL C16 failed_installs_nothing {tag} (a failed updater lookup left the store unusable)"]) ++
       (if n "upd_e_stale" == 0 then [] else [s!"PROPFAIL C15 no_lost_update {tag} (an updater on a looked-up secret is built from old bytes after a completed refresh)"]) ++
       (if n "cu_stale_get" == 0 then [] else [s!"PROPFAIL C15 next_get_sees_newest {tag}"]) ++
       (if ((lookup fs "cu_final").getD "2") == "2" then [] else [s!"PROPFAIL C15 no_lost_update {tag} (quiescent Get after two installs)"]) ++
